@@ -1,6 +1,7 @@
 (* Run.v — the operations of the correspondence check: one [run_case] entry point. *)
 From DltV.Model Require Import Bytes RustInt Utf8 Nom Dlt Parse Wire.
 From DltV.Spec Require Import WellFormed.
+From DltV.Spec Require Layout.
 From DltV.Model Require Import Stats Reader Stream Float FibexWire.
 Open Scope N_scope.
 
@@ -232,6 +233,22 @@ Definition op_async (ts : list wtok) : list wtok :=
     let '(l, fin) := async_run_cap (cap_of c) sched s (option_map process_filter f) sh in
     w_list w_outcome l ++ w_bool fin).
 
+(* 60 SPECDEC / 61 SPECENC: the independent reference codec of Spec/Layout.v (C02) *)
+Definition w_verdict (v : Layout.verdict) : list wtok :=
+  match v with
+  | Layout.VMessage m c => WN 0 :: w_msg m ++ [WN c]
+  | Layout.VIncomplete => [WN 1]
+  | Layout.VReject => [WN 2]
+  end.
+Definition op_specdec (ts : list wtok) : list wtok :=
+  run_rd (rlet sh := r_bool in rlet bs := r_bytes in rret (sh, bs)) ts
+    (fun '(sh, bs) => w_verdict (Layout.spec_decode sh bs)).
+Definition op_specenc (ts : list wtok) : list wtok :=
+  run_rd r_msg ts (fun m =>
+    w_bool (wf_message m) ++
+    if message_bytes_overflows m then [WN 1]
+    else [WN 0; WB (if wf_message m then Layout.spec_encode m else message_bytes m)]).
+
 Definition run_case (op : N) (ts : list wtok) : list wtok :=
   match op with
   | 1 => run_rd r_n ts (fun ms => w_chk w_ts (from_ms ms))
@@ -274,5 +291,7 @@ Definition run_case (op : N) (ts : list wtok) : list wtok :=
   | 42 => run_rd r_arg ts (fun a => w_chk (w_opt w_n) (to_real_value a))
   | 50 => op_fibex ts
   | 51 => op_fibex_lookup ts
+  | 60 => op_specdec ts
+  | 61 => op_specenc ts
   | _ => [WN 998]
   end.
